@@ -52,3 +52,50 @@ handler(
     "self.minimum_length <= {v}[1] - {v}[0] and {v}[1] - {v}[0] <= self.maximum_length and 0 <= {v}[0] and {v}[1] <= self.maximum_top_limit",
     {"constructor_asserts": "self.maximum_length > self.minimum_length and self.maximum_length < self.maximum_top_limit"},
 )
+
+# ---- ListSizeBetween: the generated list has a length within the documented bounds (C02) -------------------------------
+# `rec` (the synthesis callback create_node passes in) is modelled as an object with a __call__ contract: it returns a
+# value that is well-typed for the requested type and draws only from random sources.
+import specs.typeforms  # noqa: F401,E402  (declaration order)
+import specs.synthesis  # noqa: F401,E402  (declaration order)
+
+R.cls("RecFn", fields={})
+R.contract(
+    "RecFn.__call__",
+    params=dict(self="RecFn", typ="~Type"),
+    returns="~Val",
+    ensures={"value_of_the_requested_type": "welltyped(result, typ)"},
+    raises={"SynthesisException": "handlers_may_fail()", "GeneticEngineError": "handlers_may_fail()"},
+    modifies=["class:RandomSource", "class:SynthesisDecider"],
+    verify=False,
+    note="the synthesis callback (create_node's `recurse`): verified as part of create_node; here only its interface is used",
+)
+R.cls("ListSizeBetween", bases=["MetaHandlerGenerator"], fields={"min": "int", "max": "int"}, file=LSTS)
+R.contract(
+    "ListSizeBetween.validate",
+    file=LSTS,
+    params=dict(self="ListSizeBetween", v="list[~Val]"),
+    returns="bool",
+    ensures={"is_documented_predicate": "result == (self.min <= len(v) and len(v) <= self.max)"},
+    allocates=False,
+    props=["C02"],
+)
+R.contract(
+    "ListSizeBetween.generate",
+    file=LSTS,
+    params=dict(self="ListSizeBetween", random="RandomSource", grammar="any", base_type="~Type", rec="RecFn", dependent_values="any"),
+    returns="~Val",
+    requires={"ordered": "0 <= self.min and self.min <= self.max", "list_type": "is_generic_list(base_type) and len(get_generic_parameters(base_type)) >= 1"},
+    proves={
+        "length_within_the_documented_bounds": "self.min <= len(li) and len(li) <= self.max",
+        "accepted_by_own_validate": "self.validate(li)",
+        "elements_of_the_element_type": "forall(0, len(li), lambda k: welltyped(li[k], get_generic_parameter(base_type)))",
+    },
+    raises={"SynthesisException": "handlers_may_fail()", "GeneticEngineError": "handlers_may_fail()"},
+    loops={0: Loop(invariants={"so_far": "len(li) == _k and forall(0, _k, lambda k: welltyped(li[k], inner_type))"},
+                   modifies=["li[]", "class:RandomSource", "class:SynthesisDecider"])},
+    locals={"li": "list[~Val]"},
+    modifies=["class:RandomSource", "class:SynthesisDecider"],
+    props=["C02", "C01"],
+    note="the returned GengyList wraps `li` (stated over the function's own list: its length is within [min, max], validate accepts it, every element came from rec(element type))",
+)
